@@ -20,9 +20,15 @@ RULE = ("one case = one generated multi-agent problem (1-3 agents, each 1-3 Bool
         "iff, constants and duplicated literals; unconditional and conditional assign/increase/decrease effects on own and "
         "environment fluents (the library cannot build an effect on a Dot target); shared goals over Dot and environment fluents, ~half of them disjunctive) run through "
         "MAConditionalEffectsRemover or MADisjunctiveConditionsRemover; targeted families planted on every run: static "
-        "conflict between an unconditional and a conditional assignment (D-C06a), conditional increase under a disjunction "
-        "(D-C06b), effect-less variants (D-C07), disjunctive shared goal with >= 2 agents, tautological / contradictory "
-        "conditions, equal actions in two agents. Compared: the whole compiled problem (environment fluents, per agent "
+        "conflict among the effects a subset selects — unconditional vs conditional and conditional vs conditional, assignment vs "
+        "assignment (constant and fluent-valued, so that the values may coincide in some states) and assignment vs increase/"
+        "decrease, 7 fixed + 14 randomised shapes (the variant is dropped: repair d88a7f6) —, conditional increase under a "
+        "disjunction, effect-less variants, disjunctive shared goal with >= 2 agents, tautological / contradictory "
+        "conditions, equal actions in two agents; and a FORALL family (user type T with 2 objects, sometimes a subtype with a "
+        "third; fluents at(T), cnt(T), link(T,T); conditional forall effects whose condition mentions the bound variable — the "
+        "ones _instances_of_conditional_effect expands —, conditional forall effects with a closed condition and unconditional "
+        "ones — both kept —, ground conditional effects on instances of the same fluents, Dot conditions on the bound "
+        "variable). Compared: the whole compiled problem (environment fluents, per agent "
         "fluents and the ordered list of compiled actions with exact fresh names, map-back target, ordered preconditions and "
         "effects, the goals) after rewriting Dot(ag, f) to the qualified fluent ag.f, plus the reference successor of every "
         "original action and the truth of every goal in 3 sampled states. Non-trivial = the compiler really splits: some action "
@@ -34,22 +40,30 @@ ASSUMPTIONS = [
     "examples (docs/notebooks/09, 10)",
     "expressions are evaluated strictly (a fluent without value makes a condition unsatisfied); states are total over the declared "
     "fluents and well-typed, so every condition of a generated problem is defined",
-    "actions are ground (no parameters, fluents of arity 0, no quantifiers, no forall effects): both compilers pass parameters "
-    "through unchanged; the exhaustive state enumeration needs a finite ground name space",
+    "actions have no parameters (both compilers pass parameters through unchanged) and no quantified conditions; fluents "
+    "have arity 0 except in the forall family, whose fluents take objects of user types; a forall effect stands for its "
+    "instances over all objects of its variables' types (MASpec.successorIn; every generated type has an object); the "
+    "exhaustive state enumeration needs a finite ground name space (more than 1500 states: an evenly spaced sample)",
     "bounded types are not enforced by the reference successor (the removers never touch values)",
     "names do not contain '.', agents' fluents do not reuse environment fluent names (MultiAgentProblem.has_name forbids it)",
     "problems with agent-specific goals are outside supported_kind() of both compilers and are not generated",
     "equivalence of goals 'up to the DNF split': the original goals hold in a state iff the compiled goals hold after executing, "
     "from that state, the fake actions applicable in it (they write fake fluents only); every other compiled action resets "
     "every fake fluent",
-    "known findings inherited from the single-agent helpers (owned by C06/C07) are attributed by cause predicates: D-C06a "
-    "(statically conflicting selected effect: as found dropped from the variant, which is then unsound; with C06/C07's repair "
-    "the whole variant is dropped, which loses the states where the syntactically different values coincide), D-C06b "
-    "(conditional increase/decrease split over overlapping disjuncts), D-C07 (variants without effects are dropped)",
+    "known findings inherited from the single-agent helpers (cf. C07-static-conflict-coinciding-values, C06-dcr-overlapping-"
+    "disjuncts, C07-noop-variant-pruned) are attributed by cause predicates evaluated IN THE FAILING STATE: "
+    "D-C37-coinciding-values (completeness only: no variant is applicable although the original is, and two FIRING assignments "
+    "of the original to one non-Boolean fluent have different value expressions — not equal constants — with the same value "
+    "in that state: the variant is dropped for the static conflict), D-C37-overlapping-disjuncts (conditional increase/"
+    "decrease split over >= 2 DNF disjuncts), D-C37-effectless-variant (nothing fires in that state: variants without effects "
+    "are dropped).  A variant that is applicable where the original is not, or yields another successor, is never attributed "
+    "for conditional-effects removal (the former finding D-C37-conflicting-variant is fixed in /repo by d88a7f6)",
 ]
 MODELLED = [
     "modelled by hand (tied by correspondence): MAConditionalEffectsRemover._compile, ConditionalEffectsRemover."
-    "_create_unconditional_actions (instantaneous branch), powerset, add_precondition, check_conflicting_effects, "
+    "_create_unconditional_actions (instantaneous branch, as repaired by d88a7f6: a variant whose selected effects "
+    "conflict is dropped), _instances_of_conditional_effect (eacfe5f) with Effect.expand_effect — the model of these "
+    "two is SHARED with C06/C07 (Core/Compile/CER.lean cerExpand, Sim.expandEffect) —, powerset, add_precondition, check_conflicting_effects, "
     "check_and_simplify_preconditions, get_fresh_name + MultiAgentProblem.has_name, MADisjunctiveConditionsRemover._compile and "
     "_ma_goals_without_disjunctions_adding_new_elements, DisjunctiveConditionsRemover._create_non_disjunctive_actions / "
     "_create_new_action_with_given_precond (instantaneous branch), replace_action map-back",
@@ -59,6 +73,7 @@ MODELLED = [
     "node as an opaque atom)",
     "not modelled: durative actions, metrics, initial values (cloned verbatim), MA-PDDL writer",
 ]
+EXTRA_PROPS = ["UPVerif.Props.C37Cer"]
 BUDGET_S = {"quick": 50, "thorough": 500}
 SEARCH_S = {"quick": 40, "thorough": 240}
 
@@ -136,6 +151,31 @@ def get(ps, key):
     raise KeyError(key)
 
 
+def get_opt(ps, key):
+    try:
+        return get(ps, key)
+    except KeyError:
+        return []
+
+
+def objs_of(ps):
+    """{user type: [objects of the type or a descendant, declaration order]} — `problem.objects(type)`"""
+    tys, objs = get_opt(ps, "types"), get_opt(ps, "objects")
+    father = {n: (None if f == "_" else f) for n, f in tys}
+
+    def sub(t, u):
+        while t is not None:
+            if t == u:
+                return True
+            t = father.get(t)
+        return False
+    return {t: [o for o, ot in objs if sub(ot, t)] for t in father}
+
+
+def ty_objs(objs, t):
+    return objs.get(t[1], []) if isinstance(t, list) and t[0] == "user" else []
+
+
 def agents_of(ps):
     return [{"name": a[1], "fluents": a[2][1:], "actions": a[3][1:]} for a in get(ps, "agents")]
 
@@ -148,9 +188,11 @@ def build(ps):
     """wire format -> real MultiAgentProblem (fresh environment)"""
     from unified_planning.model import InstantaneousAction, Effect, EffectKind
     from unified_planning.model.multi_agent import MultiAgentProblem, Agent
-    ctx = upx.Ctx()
+    ctx = upx.Ctx([(n, None if f == "_" else f) for n, f in get_opt(ps, "types")])
     ctx.env.error_used_name = True
     P = MultiAgentProblem(ps[1], ctx.env)
+    for o, t in get_opt(ps, "objects"):
+        P.add_object(ctx.obj(o, t))
     dv = lambda d: None if d == "_" else ctx.expr(d)
     for r, d in get(ps, "env"):
         P.ma_environment.add_fluent(ctx.fluent(r), default_initial_value=dv(d))
@@ -167,7 +209,10 @@ def build(ps):
                 fe, v, c = ctx.expr(e[2]), ctx.expr(e[3]), ctx.expr(e[4])
                 if not fe.type.is_compatible(v.type):
                     raise ValueError("ill-typed effect")
-                A._add_effect_instance(Effect(fe, v, c, kinds[e[1]], ()))
+                eff = Effect(fe, v, c, kinds[e[1]], tuple(ctx.var(n, t) for n, t in e[5]))
+                if [[x.name, upx.enc_ty(x.type)] for x in eff.forall] != e[5]:
+                    raise ValueError("forall list is not the one the library stores")
+                A._add_effect_instance(eff)
             ag.add_action(A)
         P.add_agent(ag)
     for g in get(ps, "goals"):
@@ -268,21 +313,32 @@ def kstr(r):
     return sexp.dumps(r)
 
 
-def all_keys(env, agents):
-    """declared ground fluents of the agent-indexed name space, canonical order: [(keystring, type)]"""
-    out = [(kstr(r), r[1]) for r, _ in env]
+def ground_args(r, objs):
+    """argument tuples of the ground instances of the fluent `r`: itertools.product over problem.objects(type)"""
+    return [tuple(("o", o) for o in combo) for combo in itertools.product(*[ty_objs(objs, t) for t in r[2]])]
+
+
+def all_keys(env, agents, objs=None):
+    """declared ground fluents of the agent-indexed name space, canonical order: [((keystring, args), type)]"""
+    objs = objs or {}
+    out = [((kstr(r), vs), r[1]) for r, _ in env for vs in ground_args(r, objs)]
     for a in agents:
         for f in a["fluents"]:
             r = f[0]
-            out.append((kstr([a["name"] + "." + r[0], r[1], r[2]]), r[1]))
+            out += [((kstr([a["name"] + "." + r[0], r[1], r[2]]), vs), r[1]) for vs in ground_args(r, objs)]
     return out
+
+
+def kfmt(k):
+    r = sexp.loads(k[0])
+    return r[0] + ("(" + ",".join(v[1] for v in k[1]) + ")" if k[1] else "")
 
 
 class ViewFl:
     """what agent `ag` reads: own bare fluents resolve to ag.f, everything else as written"""
 
-    def __init__(self, ag, own, g):
-        self.ag, self.own, self.g = ag, own, g
+    def __init__(self, ag, own, g, objs=None):
+        self.ag, self.own, self.g, self.objs = ag, own, g, objs or {}
 
     def resolve(self, k):
         if k in self.own:
@@ -292,9 +348,7 @@ class ViewFl:
 
     def get(self, kv, default=None):
         k, vs = kv
-        if vs:
-            return None
-        return self.g.get(self.resolve(k))
+        return self.g.get((self.resolve(k), tuple(vs)))
 
 
 def value(e, view):
@@ -305,15 +359,57 @@ def holds(e, view):
     return value(e, view) == ("b", True)
 
 
-def fired(effs, view):
-    """list of (global key, kind, value) of the firing effects, or None when something is undefined"""
+def subst_vars(e, rho):
+    """replace the variables bound by `rho` ({(name, typekey): object name}) by object constants"""
+    if not isinstance(e, list) or not e:
+        return e
+    if e[0] == "v":
+        o = rho.get((e[1], kstr(e[2])))
+        return e if o is None else ["o", o, e[2][1]]
+    if e[0] in ("b", "i", "r", "o", "p"):
+        return e
+    if e[0] in ("fl", "ifun"):
+        return [e[0], e[1]] + [subst_vars(a, rho) for a in e[2:]]
+    if e[0] in ("exists", "forall"):
+        inner = {k: v for k, v in rho.items() if k not in [(n, kstr(t)) for n, t in e[1]]}
+        return [e[0], e[1], subst_vars(e[2], inner)]
+    if e[0] == "dot":
+        return ["dot", e[1], subst_vars(e[2], rho)]
+    return [e[0]] + [subst_vars(a, rho) for a in e[1:]]
+
+
+def instances(effs, objs):
+    """a forall effect stands for its instances over all objects of its variables' types (first variable outermost)"""
     out = []
     for e in effs:
+        if not e[5]:
+            out.append(e)
+            continue
+        for combo in itertools.product(*[ty_objs(objs, t) for _, t in e[5]]):
+            rho = {(n, kstr(t)): o for (n, t), o in zip(e[5], combo)}
+            out.append(["eff", e[1], subst_vars(e[2], rho), subst_vars(e[3], rho), subst_vars(e[4], rho), []])
+    return out
+
+
+def target(fe, view):
+    """global key of the ground fluent application `fe` for the agent of `view` (None: an argument is undefined)"""
+    fe = undot(fe)
+    if fe[0] != "fl":
+        return None
+    args = [value(a, view) for a in fe[2:]]
+    if any(x is None for x in args):
+        return None
+    return (view.resolve(kstr(fe[1])), tuple(args))
+
+
+def fired(effs, view):
+    """list of (global key, kind, value) of the firing effect instances, or None when something is undefined"""
+    out = []
+    for e in instances(effs, view.objs):
         _, kind, fe, v, c, fa = e
-        fe = undot(fe)
-        if fa or fe[0] != "fl" or len(fe) > 2:
+        k = target(fe, view)
+        if k is None:
             return None
-        k = view.resolve(kstr(fe[1]))
         if c != T:
             cv = value(c, view)
             if cv is None or cv[0] != "b":
@@ -324,7 +420,7 @@ def fired(effs, view):
         if val is None:
             return None
         if kind == "assign":
-            if fe[1][1] == BOOL:
+            if undot(fe)[1][1] == BOOL:
                 if val[0] != "b":
                     return None
                 out.append((k, "setB", val[1]))
@@ -384,8 +480,8 @@ def all_states(keys, limit=MAX_STATES):
             yield {k: v for (k, _), v in zip(keys, combo)}
 
 
-def view_of(agent, g):
-    return ViewFl(agent["name"], set(kstr(f[0]) for f in agent["fluents"]), g)
+def view_of(agent, g, objs=None):
+    return ViewFl(agent["name"], set(kstr(f[0]) for f in agent["fluents"]), g, objs)
 
 
 GOAL_VIEW = lambda g: ViewFl("", set(), g)
@@ -393,12 +489,12 @@ GOAL_VIEW = lambda g: ViewFl("", set(), g)
 
 def sem_of(ps, vals):
     """twin of Drv.C37.semOf"""
-    env, agents = get(ps, "env"), agents_of(ps)
-    keys = all_keys(env, agents)
+    env, agents, objs = get(ps, "env"), agents_of(ps), objs_of(ps)
+    keys = all_keys(env, agents, objs)
     g = {k: pyden.val_of_sexp(v) for (k, _), v in zip(keys, vals)}
     out = ["st"]
     for a in agents:
-        view = view_of(a, g)
+        view = view_of(a, g, objs)
         for act in a["actions"]:
             s = successor(act[3][1:], act[4][1:], view, g)
             out.append("none" if s is None else [pyden.val_sexp(s.get(k)) for k, _ in keys])
@@ -422,32 +518,9 @@ def impl(payload):
     return [payload[1], r, sem]
 
 
-_modes_seen = set()
-
-
 def compare(m, a):
-    """cond: the model answers for both readings of the shared helper's `except UPConflictingEffectsException` (as found:
-    the effect is skipped; repaired by C06/C07: the variant is skipped); the code must match ONE of them on every case."""
-    if not isinstance(m, list) or not isinstance(a, list) or len(a) != 3:
-        return False
-    if m[0] == "disj":
-        return m == a
-    if m[0] != "cond" or a[0] != "cond" or m[3] != a[2]:
-        return False
-    af, rp = m[1][1], m[2][1]
-    if af == rp:
-        return a[1] == af
-    if a[1] == af:
-        mode = "as-found"
-    elif a[1] == rp:
-        mode = "repaired"
-    else:
-        return False
-    if mode not in _modes_seen:
-        _modes_seen.add(mode)
-        print(f"C37: ConditionalEffectsRemover._create_unconditional_actions matches the '{mode}' reading of its "
-              f"`except UPConflictingEffectsException` clause", flush=True)
-    return len(_modes_seen) == 1
+    """the whole answer, literally: (cond|disj  compiled-problem | (raise …)  (sem …))"""
+    return m == a
 
 
 # ------------------------------------------------------------------------------------------------
@@ -501,27 +574,76 @@ def dnf_lits(e):
     return go(nnf(e, True))
 
 
-def cause_conflict(ps):
-    """D-C06a: an action has an unconditional and a conditional effect, or two conditional effects, on the same non-Boolean
-    target that cannot both be added unconditionally (different values, or assignment vs increase/decrease)"""
+def is_const(v):
+    return isinstance(v, list) and v and v[0] in ("b", "i", "r", "o")
+
+
+def compat_values(v, w):
+    """check_conflicting_effects accepts a second assignment iff the value expressions are equal or equal constants"""
+    v, w = undot(v), undot(w)
+    if v == w:
+        return True
+    if is_const(v) and is_const(w) and v[0] in ("i", "r") and w[0] in ("i", "r"):
+        return Fraction(v[1]) == Fraction(w[1])
+    return False
+
+
+def clash(e, f):
+    """the unconditional copies of e and f cannot both be added to one action (effect.py check_conflicting_effects)"""
+    if undot(e[2]) != undot(f[2]) or undot(e[2])[1][1] == BOOL:
+        return False
+    if e[1] == "assign" and f[1] == "assign":
+        return not compat_values(e[3], f[3])
+    return e[1] == "assign" or f[1] == "assign"
+
+
+def shape_static_conflict(ps):
+    """some subset of the conditional effects of an action selects two clashing effects (statistics only)"""
+    objs = objs_of(ps)
     for a, act in orig_actions(ps):
-        effs = act[4][1:]
+        effs = instances(act[4][1:], objs)
         for i, e in enumerate(effs):
             for f in effs[i + 1:]:
-                if not (is_cond(e) or is_cond(f)):
-                    continue
-                if undot(e[2]) != undot(f[2]) or undot(e[2])[1][1] == BOOL:
-                    continue
-                if e[1] == "assign" and f[1] == "assign":
-                    if undot(e[3]) != undot(f[3]):
-                        return True
-                elif e[1] == "assign" or f[1] == "assign":
+                if (is_cond(e) or is_cond(f)) and clash(e, f):
+                    return True
+    return False
+
+
+def coincide_in_state(act, view):
+    """twin of MA.coincide (Lemmas/MAConflict.lean) — the cause of D-C37-coinciding-values IN ONE STATE: two firing assignments
+    to one non-Boolean fluent whose value expressions are incompatible for the static check but have the same value here"""
+    effs = instances(act[4][1:], view.objs)
+    for e in effs:
+        for f in effs:
+            if e is f or e[1] != "assign" or f[1] != "assign":
+                continue
+            if undot(e[2])[1][1] == BOOL or compat_values(e[3], f[3]):
+                continue
+            if target(e[2], view) is None or target(e[2], view) != target(f[2], view):
+                continue
+            if not (holds(e[4], view) and holds(f[4], view)):
+                continue
+            if value(e[3], view) == value(f[3], view):
+                return True
+    return False
+
+
+def cause_coincide(ps):
+    """structural part of the cause of D-C37-coinciding-values: an action with two assignments (not both unconditional) to
+    one non-Boolean fluent with different value expressions that are not both constants (forall effects: their instances)"""
+    objs = objs_of(ps)
+    for a, act in orig_actions(ps):
+        effs = instances(act[4][1:], objs)
+        for i, e in enumerate(effs):
+            for f in effs[i + 1:]:
+                if (is_cond(e) or is_cond(f)) and e[1] == "assign" and f[1] == "assign" and clash(e, f) \
+                        and not (is_const(undot(e[3])) and is_const(undot(f[3]))):
                     return True
     return False
 
 
 def cause_overlap(ps):
-    """D-C06b: a conditional increase/decrease whose condition has >= 2 DNF disjuncts"""
+    """D-C37-overlapping-disjuncts: a conditional increase/decrease whose condition has >= 2 DNF disjuncts"""
     for a, act in orig_actions(ps):
         for e in act[4][1:]:
             if is_cond(e) and e[1] != "assign" and len(dnf_lits(undot(e[4]))) >= 2:
@@ -530,8 +652,8 @@ def cause_overlap(ps):
 
 
 def cause_noop(ps, which):
-    """D-C07: some variant of an action has no effect at all: no unconditional effect (cond: and at least one conditional one;
-    disj: every conditional effect's condition can be false)"""
+    """D-C37-effectless-variant: some variant of an action has no effect at all: no unconditional effect (cond: and at least
+    one conditional one; disj: every conditional effect's condition can be false)"""
     for a, act in orig_actions(ps):
         effs = act[4][1:]
         if not any(not is_cond(e) for e in effs):
@@ -540,15 +662,17 @@ def cause_noop(ps, which):
 
 
 def known_cause(payload):
+    """the oracle tags a failure with the finding whose cause it observed in the failing state; the structural predicate
+    has to agree"""
     ps, which = payload[2], payload[1]
     v = oracle(payload)
     if not v:
         return None
-    if which == "cond" and "D-C06a" in v and cause_conflict(ps):
-        return "D-C37-conflicting-variant"
-    if which == "disj" and "D-C06b" in v and cause_overlap(ps):
+    if which == "cond" and v.startswith("D-C37-coinciding-values ") and cause_coincide(ps):
+        return "D-C37-coinciding-values"
+    if which == "disj" and v.startswith("D-C37-overlapping-disjuncts ") and cause_overlap(ps):
         return "D-C37-overlapping-disjuncts"
-    if "D-C07" in v and cause_noop(ps, which):
+    if v.startswith("D-C37-effectless-variant ") and cause_noop(ps, which):
         return "D-C37-effectless-variant"
     return None
 
@@ -573,11 +697,11 @@ def _oracle(payload):
         # inside the supported kind the compiler has to produce a result (that it does so at all is C08's property);
         # there is nothing to compare
         return None if comp == "conflict" else f"compiler raised {comp}"
-    env, agents = get(ps, "env"), agents_of(ps)
+    env, agents, objs = get(ps, "env"), agents_of(ps), objs_of(ps)
     cenv = comp[2][1:]
     cagents = [{"name": a[1], "fluents": a[2][1:], "actions": a[3][1:]} for a in comp[3][1:]]
-    okeys = all_keys(env, agents)
-    ckeys = all_keys(cenv, cagents)
+    okeys = all_keys(env, agents, objs)
+    ckeys = all_keys(cenv, cagents, objs)
     okeyset = set(k for k, _ in okeys)
     fake_keys = [k for k, _ in ckeys if k not in okeyset]
     # -- map back -------------------------------------------------------------------------------
@@ -599,7 +723,7 @@ def _oracle(payload):
 
     def fail(msg):
         """failures that carry the tag of an inherited finding are remembered; anything else is returned at once"""
-        if msg.startswith("D-C0"):
+        if msg.startswith("D-C37-"):
             if len(tagged) < 1:
                 tagged.append(msg)
             return None
@@ -610,7 +734,7 @@ def _oracle(payload):
             for k in fake_keys:
                 g[k] = ("b", fake_val)
             for a, ca in zip(agents, cagents):
-                view, cview = view_of(a, g), view_of(ca, g)
+                view, cview = view_of(a, g, objs), view_of(ca, g, objs)
                 for act in a["actions"]:
                     orig = successor(act[3][1:], act[4][1:], view, g)
                     vs = variants_of(comp, a["name"], act[1])
@@ -619,18 +743,14 @@ def _oracle(payload):
                         s = successor(v[3][1:], v[4][1:], cview, g)
                         if s is not None:
                             app.append((v, s))
-                    where = f"{a['name']}.{act[1]} in state {sorted((k, str(x[1])) for k, x in g0.items())}"
+                    where = f"{a['name']}.{act[1]} in state {sorted((kfmt(k), str(x[1])) for k, x in g0.items())}"
                     for v, s in app:
                         if any(k not in g for k in s):
-                            return f"variant {v[1]} of {where} writes a fluent that is not declared: {sorted(k for k in s if k not in g)}"
+                            return f"variant {v[1]} of {where} writes a fluent that is not declared: {sorted(kfmt(k) for k in s if k not in g)}"
                         if orig is None:
-                            tag = "D-C06a " if which == "cond" else ""
-                            r = fail(f"{tag}soundness: variant {v[1]} applicable, original {where} is not")
-                            if r:
-                                return r
-                            continue
+                            return f"soundness: variant {v[1]} applicable, original {where} is not"
                         if any(s[k] != orig[k] for k in okeyset):
-                            tag = "D-C06a " if which == "cond" else "D-C06b "
+                            tag = "" if which == "cond" else "D-C37-overlapping-disjuncts "
                             r = fail(f"{tag}successor: variant {v[1]} of {where} yields another successor")
                             if r:
                                 return r
@@ -638,10 +758,11 @@ def _oracle(payload):
                         if any(s[k] != ("b", False) for k in fake_keys):
                             return f"fake fluents not reset by variant {v[1]} of {where}"
                     if orig is not None and not app:
-                        # nothing fired: the dropped effect-less variant (D-C07); otherwise, for conditional effects, the
-                        # static-conflict family (with C06/C07's repair the whole variant is dropped although the
-                        # syntactically different values coincide in this state); attribution needs the cause predicate too
-                        tag = "D-C07 " if fired(act[4][1:], view) == [] else ("D-C06a " if which == "cond" else "")
+                        # nothing fired: the dropped effect-less variant; otherwise, for conditional effects, a variant
+                        # dropped for a static conflict although the two value expressions coincide in THIS state;
+                        # attribution needs the structural cause predicate too
+                        tag = "D-C37-effectless-variant " if fired(act[4][1:], view) == [] else (
+                            "D-C37-coinciding-values " if which == "cond" and coincide_in_state(act, view) else "")
                         r = fail(f"{tag}completeness: original {where} applicable, no variant is")
                         if r:
                             return r
@@ -654,19 +775,19 @@ def _oracle(payload):
         og = all(holds(x, GOAL_VIEW(g)) for x in goals)
         g2 = dict(g)
         for ca, fa in fake_actions:
-            s = successor(fa[3][1:], fa[4][1:], view_of(ca, g), g)
+            s = successor(fa[3][1:], fa[4][1:], view_of(ca, g, objs), g)
             if s is not None:
                 for k in s:
                     if k not in g:
-                        return f"goals: fake action {fa[1]} writes a fluent that is not declared: {k}"
+                        return f"goals: fake action {fa[1]} writes a fluent that is not declared: {kfmt(k)}"
                     if s[k] != g[k]:
                         if k not in fake_keys:
-                            return f"goals: fake action {fa[1]} changes {k}"
+                            return f"goals: fake action {fa[1]} changes {kfmt(k)}"
                         g2[k] = s[k]
         cg = all(holds(x, GOAL_VIEW(g2)) for x in cgoals)
         if og != cg:
             return (f"goals: original goals {'hold' if og else 'do not hold'}, compiled goals {'hold' if cg else 'do not hold'} "
-                    f"in state {sorted((k, str(x[1])) for k, x in g0.items())}")
+                    f"in state {sorted((kfmt(k), str(x[1])) for k, x in g0.items())}")
     return tagged[0] if tagged else None
 
 
@@ -833,16 +954,18 @@ def canon_action(act):
     return act[:3] + [["pre"] + pre, act[4]]
 
 
-def mk_problem(name, env, agents, goals):
-    """payloads describe problems AS STORED by the library: add_goal drops TRUE"""
-    return ["maproblem", name, ["env"] + env,
-            ["agents"] + [["agent", a["name"], ["fluents"] + a["fluents"], ["actions"] + [canon_action(x) for x in a["actions"]]]
-                          for a in agents],
-            ["goals"] + [g for g in goals if g != T]]
+def mk_problem(name, env, agents, goals, types=None, objects=None):
+    """payloads describe problems AS STORED by the library: add_goal drops TRUE; user types / objects are optional"""
+    tys = [["types"] + list(types), ["objects"] + list(objects or [])] if types else []
+    return ["maproblem", name] + tys + [
+        ["env"] + env,
+        ["agents"] + [["agent", a["name"], ["fluents"] + a["fluents"], ["actions"] + [canon_action(x) for x in a["actions"]]]
+                      for a in agents],
+        ["goals"] + [g for g in goals if g != T]]
 
 
 def sample_states(rng, ps, n=3):
-    keys = all_keys(get(ps, "env"), agents_of(ps))
+    keys = all_keys(get(ps, "env"), agents_of(ps), objs_of(ps))
     out = []
     for _ in range(n):
         out.append([pyden.val_sexp(rng.choice(domain(t))) for _, t in keys])
@@ -862,12 +985,21 @@ def planted(rng):
     act = lambda n, pre, effs: ["action", n, [], ["pre"] + pre, ["effs"] + effs]
     i = lambda z: ["i", str(z)]
     out = []
-    # static conflict between an unconditional and a conditional assignment
+    # static conflict among the effects a subset selects (d88a7f6: the variant is dropped)
+    #   unconditional vs conditional assignment of different constants: never coincide
     out.append(("cond", two([act("act", [], [eff("assign", fx, i(1)), eff("assign", fx, i(2), fp)])], [], [])))
+    #   increase vs conditional assignment
     out.append(("cond", two([act("act", [], [eff("increase", fx, i(1)), eff("assign", fx, i(2), dot("a2", fp))])], [], [])))
+    #   two conditional assignments (the conflict arises in the subsets that select both) beside a Boolean effect
     out.append(("cond", two([act("act", [fq], [eff("assign", fx, i(1), fp), eff("assign", fx, i(2), fq), eff("assign", fe, T)])], [], [])))
-    # conflicting values that coincide: both assign 1
+    #   the same value twice: no conflict at all
     out.append(("cond", two([act("act", [], [eff("assign", fx, i(1)), eff("assign", fx, i(1), fp)])], [], [])))
+    #   fluent-valued: `x := 1; x := x if p` and `x := a2.x if p; x := 2 if q` — the values coincide in some states
+    out.append(("cond", two([act("act", [], [eff("assign", fx, i(1)), eff("assign", fx, fx, fp)])], [], [])))
+    out.append(("cond", two([act("act", [], [eff("assign", fx, dot("a2", fx), fp), eff("assign", fx, i(2), fq), eff("assign", fq, T)])], [], [])))
+    #   a conflict behind an earlier accepted selected effect (the loop is left in the middle: `break`)
+    out.append(("cond", two([act("act", [], [eff("assign", fq, T, fp), eff("decrease", fx, i(1), fq), eff("assign", fx, i(0), ["not", fp]),
+                                              eff("assign", fe, T, fq)])], [], [])))
     # effect-less variants
     out.append(("cond", two([act("act", [], [eff("assign", fq, T, fp)])], [act("act", [], [eff("assign", fp, T, dot("a1", fp))])], [])))
     out.append(("disj", two([act("act", [["or", fp, fq]], [eff("assign", fq, T, F)])], [], [])))
@@ -895,10 +1027,148 @@ def planted(rng):
     return [["ma", w, ps, sample_states(rng, ps)] for w, ps in out]
 
 
+def conflict_family(rng, n):
+    """randomised shapes of the static-conflict family: one agent (plus a second one to read from), an action with 2-4
+    effects on the int fluent x, at least one conditional, values constant or fluent-valued, kinds mixed"""
+    P, Q, X, Y = ref("p", BOOL), ref("q", BOOL), ref("x", INT02), ref("y", INT02)
+    fp, fq, fx, fy = ["fl", P], ["fl", Q], ["fl", X], ["fl", Y]
+    out = []
+    while len(out) < n:
+        conds = [fp, fq, ["not", fp], ["and", fp, fq], ["or", fp, fq], dot("a2", fp), ["le", fy, ["i", "1"]]]
+        vals = [["i", "0"], ["i", "1"], ["i", "2"], fy, fx, dot("a2", fx)]
+        effs, taken = [], None
+        for _ in range(rng.choice([2, 2, 3, 4])):
+            kind = rng.choice(["assign", "assign", "assign", "increase", "decrease"])
+            v = rng.choice(vals) if kind == "assign" else ["i", "1"]
+            c = T if rng.random() < 0.3 else rng.choice(conds)
+            if c == T:
+                # the library accepts only statically consistent unconditional effects
+                sig = ("assign", sexp.dumps(v)) if kind == "assign" else "incdec"
+                if taken is not None and taken != sig:
+                    continue
+                taken = sig
+            effs.append(["eff", kind, fx, v, c, []])
+        if rng.random() < 0.7:
+            effs.insert(rng.randrange(len(effs) + 1), ["eff", "assign", fq, T, rng.choice([T, T, fp]), []])
+        if not any(is_cond(e) for e in effs):
+            continue
+        pre = [] if rng.random() < 0.6 else [rng.choice(conds)]
+        a1 = {"name": "a1", "fluents": [[P, F, "T"], [Q, F, "F"], [X, ["i", "0"], "F"], [Y, ["i", "0"], "T"]],
+              "actions": [["action", "act", [], ["pre"] + pre, ["effs"] + effs]]}
+        a2 = {"name": "a2", "fluents": [[P, F, "T"], [X, ["i", "0"], "T"]], "actions": []}
+        ps = mk_problem("p", [], [a1, a2], [])
+        out.append(["ma", "cond", ps, sample_states(rng, ps)])
+    return out
+
+
+def has_free_var(e):
+    if not isinstance(e, list) or not e:
+        return False
+    if e[0] == "v":
+        return True
+    return any(has_free_var(a) for a in e[1:])
+
+
+def forall_family(rng, n):
+    """problems with user types and objects (sometimes a subtype) whose actions carry forall effects: conditional ones whose
+    condition mentions the bound variable (expanded by _instances_of_conditional_effect), conditional ones with a closed
+    condition and unconditional ones (both kept as forall effects), mixed with ground conditional effects on instances of the
+    same fluents (static conflicts between an instance and a ground effect included)"""
+    UT = ["user", "T"]
+    out = []
+    while len(out) < n:
+        sub = rng.random() < 0.25
+        types = [["T", "_"]] + ([["S", "T"]] if sub else [])
+        objects = [["o1", "T"], ["o2", "T"]] if not sub else rng.choice([[["o1", "T"], ["s1", "S"]], [["s1", "S"], ["o1", "T"], ["o2", "T"]]])
+        onames = [o for o, _ in objects]
+        AT, CNT, Q = ["at", BOOL, [UT]], ["cnt", INT02, [UT]], ref("q", BOOL)
+        LINK = ["link", BOOL, [UT, UT]]
+        two_vars = rng.random() < 0.15 and len(objects) == 2
+        x, y = ["v", "x", UT], ["v", "y", UT]
+        VX, VY = ["x", UT], ["y", UT]
+        vx = ["v", "z", ["user", "S"]] if sub and rng.random() < 0.4 else x
+        VZ = [vx[1], vx[2]]
+        ob = lambda o: ["o", o, dict(objects)[o]]
+        at = lambda t: ["fl", AT, t]
+        cnt = lambda t: ["fl", CNT, t]
+        fq = ["fl", Q]
+        a2_pub = rng.random() < 0.7
+        bound_conds = lambda v: [at(v), ["not", at(v)], ["and", at(v), fq], ["le", cnt(v), ["i", "1"]]] + \
+            ([dot("a2", at(v)), ["and", at(v), dot("a2", at(v))], ["or", at(v), dot("a2", at(v))]] if a2_pub else [])
+        closed_conds = [fq, at(ob(onames[0])), ["not", fq], ["eq", cnt(ob(onames[-1])), ["i", "0"]]]
+        effs, n_cond = [], 0
+        unc_cnt = None   # the unconditional effect on cnt(x), if any: the library checks unconditional effects statically
+        for _ in range(rng.choice([1, 2, 2, 3])):
+            r = rng.random()
+            v = vx if rng.random() < 0.5 else x
+            V = [v[1], v[2]]
+            dom = len([o for o, t in objects if t == V[1][1] or (V[1][1] == "T")])
+            if r < 0.45:
+                # conditional forall effect whose condition mentions the bound variable
+                if n_cond + dom > 4:
+                    continue
+                c = rng.choice(bound_conds(v))
+                k = rng.random()
+                if k < 0.4:
+                    effs.append(["eff", "assign", cnt(v), rng.choice([["i", "1"], ["i", "2"], cnt(v), ["fl", CNT, ob(onames[0])]]), c, [V]])
+                elif k < 0.6:
+                    effs.append(["eff", rng.choice(["increase", "decrease"]), cnt(v), ["i", "1"], c, [V]])
+                else:
+                    effs.append(["eff", "assign", at(v), rng.choice([T, F]), c, [V]])
+                n_cond += dom
+            elif r < 0.6:
+                # conditional forall effect with a closed condition: not expanded
+                if n_cond + 1 > 4:
+                    continue
+                effs.append(["eff", "assign", at(v), rng.choice([T, F]), rng.choice(closed_conds), [V]])
+                n_cond += 1
+            elif r < 0.75:
+                # unconditional forall effect
+                if rng.random() < 0.5:
+                    effs.append(["eff", "assign", at(v), rng.choice([T, F]), T, [V]])
+                elif unc_cnt is None:
+                    unc_cnt = rng.choice([("assign", ["i", "1"]), ("increase", ["i", "1"])])
+                    effs.append(["eff", unc_cnt[0], cnt(x), unc_cnt[1], T, [VX]])
+            else:
+                # ground conditional effect on an instance
+                if n_cond + 1 > 4:
+                    continue
+                o = ob(rng.choice(onames))
+                c = rng.choice(closed_conds + [at(o)])
+                if rng.random() < 0.6:
+                    effs.append(["eff", rng.choice(["assign", "assign", "increase"]), cnt(o), rng.choice([["i", "1"], ["i", "2"]]), c, []])
+                else:
+                    effs.append(["eff", "assign", fq, T, c, []])
+                n_cond += 1
+        if two_vars and n_cond <= 0:
+            effs.append(["eff", "assign", ["fl", LINK, x, y], T, ["and", at(x), ["not", at(y)]], [VX, VY]])
+            n_cond += 4
+        if not any(is_cond(e) for e in effs):
+            continue
+        if rng.random() < 0.5:
+            effs.insert(rng.randrange(len(effs) + 1), ["eff", "assign", fq, rng.choice([T, F]), T, []])
+        pre = [] if rng.random() < 0.6 else [rng.choice(closed_conds)]
+        fl1 = [[AT, F, "T"], [CNT, ["i", "0"], "F"], [Q, F, "F"]] + ([[LINK, F, "F"]] if two_vars else [])
+        a1 = {"name": "a1", "fluents": fl1, "actions": [["action", "act", [], ["pre"] + pre, ["effs"] + effs]]}
+        a2 = {"name": "a2", "fluents": [[AT, F, "T" if a2_pub else "F"]], "actions": []}
+        if rng.random() < 0.2:
+            a2["actions"].append(["action", "act", [], ["pre"],
+                                  ["effs", ["eff", "assign", at(x), T, ["not", at(x)], [VX]],
+                                   ["eff", "assign", at(ob(onames[0])), T, T, []]]])
+        goals = [] if rng.random() < 0.7 else [dot("a1", at(ob(onames[0])))]
+        ps = mk_problem("p", [], [a1, a2], goals, types, objects)
+        out.append(["ma", "cond", ps, sample_states(rng, ps, 2)])
+    return out
+
+
 def cases(rng, tier):
     for c in planted(rng):
         yield c
-    n = 260 if tier == "quick" else 6000
+    for c in conflict_family(rng, 14 if tier == "quick" else 200):
+        yield c
+    for c in forall_family(rng, 14 if tier == "quick" else 200):
+        yield c
+    n = 260 if tier == "quick" else 4000
     g = Gen(rng)
     for i in range(n):
         which = "cond" if i % 2 == 0 else "disj"
@@ -909,6 +1179,10 @@ def cases(rng, tier):
 def search(rng, tier):
     g = Gen(rng)
     for c in planted(rng):
+        yield c
+    for c in conflict_family(rng, 40):
+        yield c
+    for c in forall_family(rng, 60):
         yield c
     while True:
         which = rng.choice(["cond", "disj"])
@@ -947,8 +1221,15 @@ def stats(payload, ans):
     if len(comp[2][1:]) > len(get(ps, "env")):
         t.append("fake-goal")
     t.append(f"agents-{len(agents_of(ps))}")
-    if payload[1] == "cond" and cause_conflict(ps):
-        t.append("cause:conflict")
+    effs_all = [e for _, act in orig_actions(ps) for e in act[4][1:]]
+    if any(e[5] and is_cond(e) and has_free_var(e[4]) for e in effs_all):
+        t.append("forall-expanded")
+    if any(e[5] and not (is_cond(e) and has_free_var(e[4])) for e in effs_all):
+        t.append("forall-kept")
+    if payload[1] == "cond" and shape_static_conflict(ps):
+        t.append("shape:static-conflict")
+    if payload[1] == "cond" and cause_coincide(ps):
+        t.append("cause:coincide")
     if payload[1] == "disj" and cause_overlap(ps):
         t.append("cause:overlap")
     return t
@@ -963,8 +1244,8 @@ def shrink(payload):
     env, agents, goals = get(ps, "env"), agents_of(ps), get(ps, "goals")
 
     def rebuild(env, agents, goals):
-        p2 = mk_problem(ps[1], env, agents, goals)
-        keys = all_keys(env, agents)
+        p2 = mk_problem(ps[1], env, agents, goals, get_opt(ps, "types"), get_opt(ps, "objects"))
+        keys = all_keys(env, agents, objs_of(ps))
         return ["ma", which, p2, ["states", [pyden.val_sexp(domain(t)[0]) for _, t in keys]]]
     for i in range(len(goals)):
         yield rebuild(env, agents, _drop(goals, i))
@@ -999,7 +1280,7 @@ def shrink(payload):
     if len(agents) > 1:
         for ai in range(len(agents)):
             rest = _drop(agents, ai)
-            s = sexp.dumps([mk_problem("p", env, rest, goals)])
+            s = sexp.dumps([mk_problem("p", env, rest, goals, get_opt(ps, "types"), get_opt(ps, "objects"))])
             if f"(dot {agents[ai]['name']} " not in s:
                 yield rebuild(env, rest, goals)
 
@@ -1010,9 +1291,13 @@ MANIFEST = {
                    "agent-indexed name space; model tied to /repo by differential comparison of whole compiled problems; the "
                    "property itself evaluated on the real compilers for all states of every generated problem"),
     "level_note": ("semantic theorems take the soundness of the simplifier (C11) as hypothesis and get the soundness of the DNF "
-                   "walker from C12.dnf_equiv; three behaviours inherited from the single-agent helpers are known findings and "
-                   "the corresponding clauses are proved under decidable hypotheses that exclude exactly their causes, with "
-                   "kernel-checked witnesses for the unrestricted statements"),
+                   "walker from C12.dnf_equiv; the per-action split of the model is proved equal to the single-agent model of "
+                   "C06/C07 (C37Cer); forall effects: theorem for actions whose forall effects are all expanded by the compiler "
+                   "(C37_cond_forall_partial), the others are covered by correspondence and oracle only; soundness of conditional-effects removal is unconditional (repair d88a7f6 "
+                   "modelled); three behaviours inherited from the single-agent helpers are known findings (coinciding values "
+                   "of statically conflicting assignments, overlapping disjuncts, effect-less variants) and the corresponding "
+                   "clauses are proved under decidable hypotheses that exclude exactly their causes, with kernel-checked "
+                   "witnesses for the unrestricted statements"),
     "technique": "proof + correspondence + exhaustive-state oracle",
     "design_ref": "DESIGN.md §5 C37",
 }
